@@ -34,7 +34,7 @@ def run(c):
     g = _txncfg.gen(c, "a", MaxStores=2, MaxTxns=5, MaxOps=c.pick(14, 30), Keys=12, DupStores=True)
     seq = txnlib.run_driver(c, binp, "seq", _txncfg.cfg(c, "seq", c.pick(50, 400), g, audit=True))
     gf = _txncfg.gen(c, "f", MaxTxns=3, MaxOps=10, Keys=10, Slots=[2, 4], Rollbacks=False)
-    flt = txnlib.run_driver(c, binp, "fault", _txncfg.cfg(c, "fault", c.pick(2, 10), gf, max_fault=c.pick(12, 0), audit=True), timeout=c.pick(900, 3400))
+    flt = txnlib.run_driver(c, binp, "fault", _txncfg.cfg(c, "fault", c.pick(2, 10), gf, max_fault=c.pick(12, 0), directed_max=c.pick(40, 0), audit=True), timeout=c.pick(900, 3400))
     gs = _txncfg.gen(c, "r", MaxTxns=5, MaxOps=6, Keys=8)
     sto = txnlib.run_driver(c, binp, "stores", _txncfg.cfg(c, "stores", c.pick(30, 300), gs, faults=False, audit=True))
     # fault runs: the same program's fault-free (dry) run is the baseline - a failed commit must not ADD orphans
